@@ -407,6 +407,15 @@ impl<'a> Gen<'a> {
             }
         }
     }
+    /// the token of a priority: now and then with a tag (`v/t`), which Ord
+    /// ignores, so that priorities that tie stay distinguishable
+    fn ptok(&mut self, p: i64) -> String {
+        if self.rng.pct(15) {
+            format!("{p}/{}", self.rng.range(1, 3))
+        } else {
+            p.to_string()
+        }
+    }
     fn pl(&mut self) -> i64 {
         self.payload += 1;
         self.payload
@@ -415,7 +424,8 @@ impl<'a> Gen<'a> {
         if self.rng.pct(none_pct) {
             "-".into()
         } else {
-            self.prio().to_string()
+            let p = self.prio();
+            self.ptok(p)
         }
     }
     fn opt_pl(&mut self, none_pct: u64) -> String {
@@ -494,7 +504,8 @@ impl<'a> Gen<'a> {
             };
             let p = self.prio();
             let pl = self.pl();
-            let _ = write!(s, " {k} {pl} {p}");
+            let pt = self.ptok(p);
+            let _ = write!(s, " {k} {pl} {pt}");
             l.push((k, p));
         }
         (s, l)
@@ -837,7 +848,7 @@ impl<'a> Gen<'a> {
                         "pushdec"
                     }
                 };
-                format!("{name} {r} {key} {pl} {p}")
+                format!("{name} {r} {key} {pl} {}", self.ptok(p))
             }
             Chg | ChgBy => {
                 let key = self.lookup_key(r);
@@ -845,7 +856,7 @@ impl<'a> Gen<'a> {
                 if self.regs[r].find(key).is_some() {
                     self.regs[r].set(key, p);
                 }
-                format!("{} {r} {key} {p}", if k == Chg { "chg" } else { "chgby" })
+                format!("{} {r} {key} {}", if k == Chg { "chg" } else { "chgby" }, self.ptok(p))
             }
             ChgAdd => {
                 let key = self.lookup_key(r);
@@ -855,7 +866,7 @@ impl<'a> Gen<'a> {
                     if self.regs[r].find(key).is_some() {
                         self.regs[r].set(key, p);
                     }
-                    return format!("chgby {r} {key} {p}");
+                    return format!("chgby {r} {key} {}", self.ptok(p));
                 }
                 let d = *self.rng.pick(&[-2i64, -1, -1, 1, 1, 2, 0]);
                 if let Some(i) = self.regs[r].find(key) {
@@ -924,7 +935,10 @@ impl<'a> Gen<'a> {
                     if k == Retain {
                         let _ = write!(s, " {key} {}", *keep as u8);
                     } else {
-                        let w = w.map_or("-".to_string(), |w| w.to_string());
+                        let w = match w {
+                            None => "-".to_string(),
+                            Some(w) => self.ptok(*w),
+                        };
                         let _ = write!(s, " {key} {w} {}", *keep as u8);
                     }
                 }
